@@ -5,6 +5,7 @@ package c04
 import (
 	"bufio"
 	"bytes"
+	"encoding/json"
 	"fmt"
 	"io"
 	"net"
@@ -68,9 +69,15 @@ type Case struct {
 	// OpaqueDial: the dial function the proxy was given returns a net.Conn that
 	// has no CloseWrite (a wrapper, as metering or TLS-less custom dialers do):
 	// end-of-stream from the client can then only be passed on by closing it.
-	OpaqueDial bool   `json:"opaque_dial,omitempty"`
-	TwinSize   int    `json:"twin_size,omitempty"`
-	TwinSeed   uint64 `json:"twin_seed,omitempty"`
+	OpaqueDial bool `json:"opaque_dial,omitempty"`
+	// Prelude: before the CONNECT the same client connection carries this many
+	// ordinary HTTP exchanges (keep-alive), as a browser's proxy connection may.
+	Prelude int `json:"prelude,omitempty"`
+	// AgeMs: the tunnel is kept open (carrying a byte both ways now and then)
+	// for this long before the streams are written.
+	AgeMs    int    `json:"age_ms,omitempty"`
+	TwinSize int    `json:"twin_size,omitempty"`
+	TwinSeed uint64 `json:"twin_seed,omitempty"`
 }
 
 // runTwin drives the second tunnel and reports what it saw.
@@ -373,12 +380,22 @@ func runOnce(c Case, T time.Duration) (v kit.Verdict) {
 		return ""
 	})
 
+	var preludeOrigin *netkit.Origin
+	if c.Prelude > 0 {
+		preludeOrigin = netkit.NewOrigin(func(r *netkit.ReqLog) netkit.Script {
+			body := "PRELUDE-" + r.Header.Get("X-Verif-Id")
+			return netkit.Script{Raw: []byte(fmt.Sprintf("HTTP/1.1 200 OK\r\nContent-Length: %d\r\n\r\n%s", len(body), body)), CutAt: -1}
+		})
+		defer preludeOrigin.Close()
+	}
 	dialer := &netkit.Dialer{Route: func(addr string) string {
 		switch {
 		case strings.HasPrefix(addr, "twin.test") && twinL != nil:
 			return twinL.Addr().String()
 		case strings.HasPrefix(addr, "downstream.test"):
 			return dl.Addr().String()
+		case strings.HasPrefix(addr, "origin.test") && preludeOrigin != nil:
+			return preludeOrigin.Addr
 		case strings.HasPrefix(addr, "target.test"):
 			if c.Unreachable {
 				return ""
@@ -459,6 +476,25 @@ func runOnce(c Case, T time.Duration) (v kit.Verdict) {
 			early = len(c2t)
 		}
 	}
+	br := bufio.NewReader(conn)
+	for k := 0; k < c.Prelude; k++ {
+		id := fmt.Sprintf("p%d", k)
+		conn.SetDeadline(time.Now().Add(T))
+		fmt.Fprintf(conn, "GET http://origin.test/%s HTTP/1.1\r\nHost: origin.test\r\nX-Verif-Id: %s\r\n\r\n", id, id)
+		pres, err := http.ReadResponse(br, &http.Request{Method: "GET"})
+		var pbody []byte
+		if err == nil {
+			pbody, err = io.ReadAll(pres.Body)
+		}
+		if err != nil || pres.StatusCode != 200 || string(pbody) != "PRELUDE-"+id {
+			class := "exchange-before-connect-failed"
+			if netkit.IsTimeout(err) {
+				class = "timeout-exchange-before-connect"
+			}
+			return kit.Failf("C04/harness-prelude/"+sh+"/"+class, "ordinary exchange %d before the CONNECT: %v (body %q)", k, err, pbody)
+		}
+		conn.SetDeadline(time.Time{})
+	}
 	head := connectHead(c.Head)
 	conn.SetWriteDeadline(time.Now().Add(10 * time.Second))
 	first := early
@@ -474,7 +510,6 @@ func runOnce(c Case, T time.Duration) (v kit.Verdict) {
 	}
 	conn.SetWriteDeadline(time.Time{})
 
-	br := bufio.NewReader(conn)
 	conn.SetReadDeadline(time.Now().Add(T))
 	res, err := http.ReadResponse(br, &http.Request{Method: "CONNECT"})
 	if err != nil {
@@ -512,6 +547,31 @@ func runOnce(c Case, T time.Duration) (v kit.Verdict) {
 		time.Sleep(2 * time.Millisecond)
 	}
 
+	if c.AgeMs > 0 {
+		// an old tunnel: a byte each way every 500 ms, so that it is never idle
+		// (none of these bytes belongs to the streams compared below)
+		deadline := time.Now().Add(time.Duration(c.AgeMs) * time.Millisecond)
+		one := make([]byte, 1)
+		for k := 0; time.Now().Before(deadline); k++ {
+			conn.SetDeadline(time.Now().Add(T))
+			tc.SetDeadline(time.Now().Add(T))
+			if _, err := conn.Write([]byte{'>'}); err != nil {
+				return kit.Failf("C04/transfer/"+sh+"/old-tunnel/write-failed", "client write after %d ms: %v", k*500, err)
+			}
+			if _, err := io.ReadFull(tc, one); err != nil || one[0] != '>' {
+				return kit.Failf("C04/transfer/"+sh+"/old-tunnel/timeout-client-bytes-not-delivered", "byte sent by the client %d ms after the tunnel was set up: target got %q, %v", k*500, one, err)
+			}
+			if _, err := tc.Write([]byte{'<'}); err != nil {
+				return kit.Failf("C04/transfer/"+sh+"/old-tunnel/write-failed", "target write after %d ms: %v", k*500, err)
+			}
+			if _, err := io.ReadFull(br, one); err != nil || one[0] != '<' {
+				return kit.Failf("C04/transfer/"+sh+"/old-tunnel/timeout-target-bytes-not-delivered", "byte sent by the target %d ms after the tunnel was set up: client got %q, %v", k*500, one, err)
+			}
+			time.Sleep(500 * time.Millisecond)
+		}
+		conn.SetDeadline(time.Time{})
+		tc.SetDeadline(time.Time{})
+	}
 	clientIn := collect(br) // what the client receives
 	targetIn := collect(tc) // what the target receives
 
@@ -681,6 +741,9 @@ func genStream(t *rapid.T, label string, max int) Stream {
 		s.Size = rapid.IntRange(1, 100).Draw(t, label+"_size")
 	case 3, 4, 5:
 		s.Size = rapid.SampledFrom([]int{4095, 4096, 4097, 8192, 32768, 65536, 65537}).Draw(t, label+"_size")
+	case 6:
+		// past the limits the standard library applies to message heads (1 MiB)
+		s.Size = rapid.SampledFrom([]int{1<<20 - 1, 1<<20 + 1, 1<<20 + 70000, 3 << 20}).Draw(t, label+"_size")
 	default:
 		s.Size = rapid.IntRange(1, max).Draw(t, label+"_size")
 	}
@@ -731,6 +794,10 @@ func genCase(t *rapid.T) Case {
 			// stream is passed on by closing it: the target cannot answer afterwards
 			c.Closer = "client-half"
 		}
+	}
+	// (the harness's downstream proxy only speaks CONNECT)
+	if c.Route == "direct" && rapid.IntRange(0, 2).Draw(t, "prelude") == 0 {
+		c.Prelude = rapid.IntRange(1, 3).Draw(t, "prelude_n")
 	}
 	if !c.Unreachable && rapid.IntRange(0, 2).Draw(t, "twin") == 0 {
 		c.Twin = true
@@ -783,6 +850,18 @@ func classes(c Case) []string {
 	if c.OpaqueDial {
 		out = append(out, "dialled-conn-without-closewrite")
 	}
+	if c.Prelude > 0 {
+		out = append(out, "http-exchanges-before-connect")
+		if c.Shaped {
+			out = append(out, "shaped+http-exchanges-before-connect")
+		}
+	}
+	if c.C2T.Size > 1<<20 || c.T2C.Size > 1<<20 {
+		out = append(out, "stream>1MiB")
+	}
+	if c.AgeMs > 0 {
+		out = append(out, "old-tunnel")
+	}
 	return out
 }
 
@@ -798,6 +877,63 @@ func TestTunnel(t *testing.T) {
 	propTunnel.Check(t, kit.N(300, 400))
 }
 
-func TestReplay(t *testing.T) { kit.Replay(t, propTunnel) }
+var propOld = &kit.Prop[Case]{
+	ID: "C04", Name: "old-tunnel",
+	Rule: "tunnels (direct and through the downstream proxy, plain and shaped listener) kept open and in use for longer than any set-up deadline (10.5 s quick, 31 s thorough) before the two streams are written and the tunnel is ended; non-trivial = always",
+	Run:  run, NonTrivial: func(Case) bool { return true }, Classes: classes, Journal: true,
+}
+
+// TestOldTunnel runs its (few, slow) cases at the same time.
+func TestOldTunnel(t *testing.T) {
+	age := kit.N(10500, 31000)
+	var cases []Case
+	for _, route := range []string{"direct", "downstream"} {
+		for _, shaped := range []bool{false, true} {
+			cases = append(cases, Case{
+				C2T: Stream{Size: 70000, Seed: 5, Writes: []int{4096}, Pause: []int{0}}, T2C: Stream{Size: 70000, Seed: 6, Writes: []int{4096}, Pause: []int{0}},
+				Early: "none", Closer: "client-half", Route: route, Shaped: shaped, AgeMs: age,
+			})
+		}
+	}
+	verdicts := make([]kit.Verdict, len(cases))
+	var wg sync.WaitGroup
+	for i := range cases {
+		wg.Add(1)
+		go func(i int) { defer wg.Done(); verdicts[i] = run(cases[i]) }(i)
+	}
+	wg.Wait()
+	memo := map[string]kit.Verdict{}
+	have := map[string]bool{}
+	for i, c := range cases {
+		memo[string(mustJSON(c))], have[string(mustJSON(c))] = verdicts[i], true
+	}
+	old := propOld.Run
+	propOld.Run = func(c Case) kit.Verdict {
+		k := string(mustJSON(c))
+		if have[k] {
+			have[k] = false
+			return memo[k]
+		}
+		return old(c)
+	}
+	defer func() { propOld.Run = old }()
+	propOld.Enumerate(t, func(yield func(Case) bool) {
+		for _, c := range cases {
+			if !yield(c) {
+				return
+			}
+		}
+	})
+}
+
+func mustJSON(v interface{}) []byte {
+	b, err := json.Marshal(v)
+	if err != nil {
+		panic(err)
+	}
+	return b
+}
+
+func TestReplay(t *testing.T) { kit.Replay(t, propTunnel, propOld) }
 
 var _ = fmt.Sprintf
